@@ -260,6 +260,8 @@ def mol_inputs(ck, rng):
              'B1(C)[H]B(C)[H]1', '[NH4+].[Cl-]', 'CC(=O)[O-].[Na+]', '[Na+].[O-]c1ccccc1', 'C[NH3+].[O-]C(C)=O', '[Cu+2].[O-]C(C)=O.[O-]C(C)=O']
     for s in extra:
         out.append(('extra', s))
+    for s in GEMINAL:
+        out.append(('geminal', s))
     return out
 
 
@@ -369,6 +371,11 @@ def corr_engine(ck, rng):
                 ck.case(('self', c, i), nontrivial=bool(own))
                 add(f'pass_ok {c} {stage} true {table_term(rec)} {g0} {coqmol.mol_term(m)} {rlog_term(log)} {zl(sorted(fixed))}',
                     {'kind': 'pass on own instantiation', 'rule': f'{COLL[c]}[{i}]', 'mol': str(m)})
+    # two groups of one rule sharing the rule's any-atom (generated from the tables): the accepted overlap of Any-atoms
+    for c, coll in Recorder().colls.items():
+        for i, rule in enumerate(coll):
+            if rule[3]:
+                one_molecule('geminal rule', f'geminal {COLL[c]}[{i}] {rule[0]}', lambda rule=rule: geminal_instance(rule), True)
     # corpus and decorated corpus molecules, renumbered at random half of the time
     lip = corpus.lipo()
     for k, s in enumerate(corpus.sample(lip, n_corpus, ck.seed, 'c14-engine')):
@@ -556,6 +563,8 @@ OPS = collections.OrderedDict([
     ('standardize(fix_tautomers=False)', lambda m: m.standardize(fix_tautomers=False)),
     ('canonicalize', lambda m: m.canonicalize()),
     ('canonicalize(fix_tautomers=False)', lambda m: m.canonicalize(fix_tautomers=False)),
+    ('canonicalize(keep_kekule=True)', lambda m: m.canonicalize(keep_kekule=True)),
+    ('canonicalize(keep_kekule=True, fix_tautomers=False)', lambda m: m.canonicalize(keep_kekule=True, fix_tautomers=False)),
     ('fix_resonance', lambda m: m.fix_resonance()),
     ('standardize_charges', lambda m: m.standardize_charges()),
     ('neutralize', lambda m: m.neutralize()),
@@ -565,6 +574,8 @@ OPS = collections.OrderedDict([
 ])
 OP_CODE = {'standardize': 'm.standardize()', 'standardize(fix_tautomers=False)': 'm.standardize(fix_tautomers=False)',
            'canonicalize': 'm.canonicalize()', 'canonicalize(fix_tautomers=False)': 'm.canonicalize(fix_tautomers=False)',
+           'canonicalize(keep_kekule=True)': 'm.canonicalize(keep_kekule=True)',
+           'canonicalize(keep_kekule=True, fix_tautomers=False)': 'm.canonicalize(keep_kekule=True, fix_tautomers=False)',
            'fix_resonance': 'm.fix_resonance()', 'standardize_charges': 'm.standardize_charges()', 'neutralize': 'm.neutralize()',
            'neutralize(keep_charge=False)': 'm.neutralize(keep_charge=False)', 'explicify_hydrogens': 'm.explicify_hydrogens()',
            'implicify_hydrogens': 'm.implicify_hydrogens()'}
@@ -704,7 +715,9 @@ class Limited:
 LOGGED = {'standardize': lambda m: m.standardize(logging=True),
           'standardize(fix_tautomers=False)': lambda m: m.standardize(logging=True, fix_tautomers=False),
           'canonicalize': lambda m: m.canonicalize(logging=True),
-          'canonicalize(fix_tautomers=False)': lambda m: m.canonicalize(logging=True, fix_tautomers=False)}
+          'canonicalize(fix_tautomers=False)': lambda m: m.canonicalize(logging=True, fix_tautomers=False),
+          'canonicalize(keep_kekule=True)': lambda m: m.canonicalize(logging=True, keep_kekule=True),
+          'canonicalize(keep_kekule=True, fix_tautomers=False)': lambda m: m.canonicalize(logging=True, keep_kekule=True, fix_tautomers=False)}
 
 
 def rule_steps(make, ft):
@@ -872,6 +885,36 @@ def check_op(ck, lim, name, smi, make, renumber=True, fixed_corpus=False):
                                str(m), str(first), 'labelled-graph isomorphism of the results of the first and the second application', replay_py=rp)
         elif state(m) != state(first):
             ck.count(f'search:{name}: second application moves to a symmetry-equivalent spelling')
+    elif valence_valid(m) and isomorphic(first, m) is False:
+        # the input was not valence-valid and the first application left a valence error that the SECOND application repairs: the first stopped half way
+        lim.counterexample(f'idempotence {name}', f'idempotent-2:{name}:{smi}', f'{code} repairs the molecule only in two calls: the second application changes the '
+                           'result of the first and only then every valence is valid', inp, str(m), str(first),
+                           'labelled-graph isomorphism of the results of the first and the second application', replay_py=rp)
+    # two paths to one answer: the Kekule form canonicalize(keep_kekule=True) returns, re-aromatised, is what canonicalize() returns
+    if 'keep_kekule' in name and valid:
+        try:
+            a = first.copy()
+            a.thiele(fix_tautomers=False)
+            bref = make()
+            bref.canonicalize(fix_tautomers='False' not in name)
+            bref.kekule()      # both sides through the same kekule -> thiele normalisation (canonicalize() may leave a ring half aromatised: C05)
+            bref.thiele(fix_tautomers=False)
+            same = state(a) == state(bref) or isomorphic(a, bref)
+            key = f'keep-kekule:{name}:{smi}'
+            if same is False:
+                # the recorded oscillation: fix_resonance moves the charge of this cation on every call, so the two paths stop at different calls
+                x = make()
+                x.kekule()
+                x.fix_resonance()
+                y = x.copy()
+                y.fix_resonance()
+                if state(x) != state(y) and isomorphic(x, y) is False:
+                    key = 'not-idempotent:fix_resonance-changes-the-output-of-standardize'
+            if same is False:
+                lim.counterexample(f'keep_kekule {name}', key, f'{code}: the returned Kekule form is not a Kekule form of what canonicalize() '
+                                   'returns', inp, str(first), str(bref), 'thiele() of the keep_kekule result vs canonicalize() without keep_kekule', replay_py=rp)
+        except Exception:
+            ck.count('search:keep_kekule cross-check not evaluated')
     # history independence: an object whose cached views were read before (str, hash, atoms_order, rings, components) behaves like a fresh
     # one: same result of the first and of the second application
     w = make()
@@ -992,6 +1035,8 @@ def search(ck, rng):
         pool.append(('hand', s, None))
     for _, want in test_groups_data():
         pool.append(('documented result', want, None))      # the documented canonical spellings must be fixed points
+    for s in GEMINAL:
+        pool.append(('geminal', s, None))
     for s in PI_COMPLEXES:
         pool.append(('pi-complex', s, None))
     for s in AZOLIUM:
@@ -1025,12 +1070,40 @@ def search(ck, rng):
         valid = valence_valid(m0)
         ck.count(f'search:{tag} ' + ('valence-valid' if valid else 'valence-INVALID (heavy atoms only)'))
         for name in OPS:
+            if quick and tag in ('doc', 'documented result') and name not in ('standardize', 'canonicalize', 'fix_resonance', 'standardize_charges',
+                                                                              'explicify_hydrogens' if tag == 'doc' else 'neutralize'):
+                continue
+            if 'keep_kekule' in name and (tag in ('doc', 'documented result') or (tag in ('corpus', 'decorated') and hash_pick(s, 'kk') % 3)):
+                continue
             if quick and tag in ('corpus', 'decorated') and name in ('standardize(fix_tautomers=False)', 'neutralize(keep_charge=False)') and hash_pick(s, name) % 2:
                 continue
             check_op(ck, lim, name, s, make, fixed_corpus=tag == 'corpus')
+        normal_form(ck, lim, s, make)
         # explicify and implicify are mutually inverse
         if valid:
             inverse_pair(ck, lim, s, make)
+    # (2b) two groups of one rule sharing the rule's any-atom (the overlap the engine accepts), generated from the tables
+    from chython.algorithms.standardize import molecule as engine
+    for cname, coll in (('double_rules', engine.double_rules), ('single_rules', engine.single_rules), ('metal_rules', engine.metal_rules)):
+        for i, rule in enumerate(coll):
+            if not rule[3]:
+                continue
+
+            def make(rule=rule):
+                return geminal_instance(rule)
+            make.code = (f'import sys; sys.path.insert(0, "/verif/harness"); from checks.C14 import geminal_instance\n'
+                         f'from chython.algorithms.standardize import molecule as engine\nm = geminal_instance(engine.{cname}[{i}])')
+            try:
+                if make() is None:
+                    continue
+            except Exception:
+                ck.count('search:geminal instance unbuildable')
+                continue
+            label = f'geminal {cname}[{i}] {rule[0]}'
+            ck.count('search:geminal instances of rules with any-atoms')
+            for name in ('standardize', 'standardize(fix_tautomers=False)', 'canonicalize'):
+                check_op(ck, lim, name, label, make)
+            normal_form(ck, lim, label, make)
     # (3) tautomer enumeration
     tpool = [('corpus', s) for s in corpus.sample(lip, 40 if quick else 300, ck.seed, 'c14-taut')] + [('hand', s) for s in TAUT_SMILES]
     for tag, s in tpool:
@@ -1046,6 +1119,36 @@ def prepared(m, thiele):
     return m
 
 
+PING_PONG = {'[N;z2]=[C;D2,D3;z2]-[O,S;D1]', '[O;D1;x0;z1]-[C;D3;z2;x2](-[O,N])=C'}      # C14_table_rhs_matches_no_lhs: the exact exception list
+
+
+def normal_form(ck, lim, smi, make):
+    """standardize() leaves nothing for its own rules to do: afterwards no left-hand side of the tables matches (real matcher), except the two
+    tautomer left-hand sides that ping-pong inside one pass and a metal atom that refused a fifth charge (`bad charge formed`)"""
+    from chython.algorithms.standardize import molecule as engine
+    m = make()
+    build = getattr(make, 'code', f'm = smiles({smi!r})')
+    try:
+        log = m.standardize(logging=True)
+    except Exception:
+        return
+    if any(text.startswith('bad charge formed') for _, _, text in log):
+        return
+    ck.case(('normal form', smi, build), nontrivial=bool(log))
+    for coll in (engine.double_rules, engine.single_rules, engine.metal_rules):
+        for rule in coll:
+            pat = str(rule[0])
+            if pat in PING_PONG:
+                continue
+            mp = next(rule[0].get_mapping(m, automorphism_filter=False), None)
+            if mp is not None:
+                lim.counterexample('normal form', f'normal-form:{pat}:{smi}', f'standardize() leaves a group unconverted: its own rule {pat} still matches the result',
+                                   {'smiles': smi, 'built_by': build}, {'result': str(m), 'still matched atoms': sorted(mp.values())},
+                                   'no left-hand side of the rule tables matches the result', 'the real matcher on the result of standardize()',
+                                   replay_py=f'from chython import smiles\n{build}\nprint(m.standardize(logging=True)); print(m); print(m.standardize(logging=True)); print(m)')
+                return
+
+
 def hash_pick(*xs):
     import hashlib
     return int.from_bytes(hashlib.blake2b(repr(xs).encode(), digest_size=4).digest(), 'big')
@@ -1059,7 +1162,7 @@ SALTS = ['[NH4+].[Cl-]', 'CC(=O)[O-].[Na+]', '[Na+].[O-]c1ccccc1', 'C[NH3+].[O-]
 AZOLIUM = ['Cc1cc[nH][nH+]1', 'Cc1cc[nH+][nH]1', 'Cc1c[nH]c[nH+]1', 'Cc1c[nH+]c[nH]1', 'CCn1cc[n+](C)c1', 'Cn1cc[n+](CC)c1', 'c1cc[nH][nH+]1', 'Cc1ccn(C)[n+]1C',
            'Cc1ccc2[nH]c[nH+]c2c1', 'Cc1ccc2[nH+]c[nH]c2c1', 'Cc1cc[nH+]n1C', 'Cc1ccn(C)[nH+]1', 'Cc1c[nH+]cn1C', 'Cc1cn(C)c[nH+]1', 'C[n+]1ccn(c1)c1ccccc1',
            'Fc1cc[nH][nH+]1', 'Fc1cc[nH+][nH]1', 'Cc1cc(CC)[nH][nH+]1', 'Cc1cc(CC)[nH+][nH]1', 'OC(=O)c1cc[nH][nH+]1.[Cl-]', 'Cc1[nH]nc[nH+]1', 'Cc1csc[nH+]1',
-           'Cc1cc[nH][nH+]1.Cc1c[nH+]c[nH]1', '[Fe+2].c1cc[cH-]c1.C[c-]1cccc1']
+           'C[N+]1=CC=CN1', 'C[N+]1=C(CC)NC=C1', 'C[n+]1ccc[nH]1', 'CCc1[nH]cc[n+]1C', 'Cc1cc[nH][nH+]1.Cc1c[nH+]c[nH]1', '[Fe+2].c1cc[cH-]c1.C[c-]1cccc1']
 # metal pi-complexes spelled with coordinate bonds and a carbon radical (the left-hand sides of two metal rules), metals with and without a +1 state
 PI_COMPLEXES = ['[Fe]~1~2~3~4~[CH]5C~1=C~2C~3=C~45 |^1:1|', '[Cu]~1~2~3~4~[CH]5C~1=C~2C~3=C~45 |^1:1|', '[Ti]~1~2~3~4~[CH]5C~1=C~2C~3=C~45 |^1:1|',
                 '[Fe]~1~2~C=C~1[CH2]~2 |^1:3|', '[Cu]~1~2~C=C~1[CH2]~2 |^1:3|', '[Ni]~1~2~C=C~1[CH2]~2 |^1:3|']
